@@ -336,6 +336,52 @@ def rule_replace(ctx, cd):
         break
 
 
+def rule_copy_size(ctx, cd):
+    R = "R-C04-COPY-SIZE"
+    ctx.rule(
+        R,
+        "every raw memmove / memcpy into the output buffer of the C serializer copies exactly the wire size of what it writes: "
+        "ceil(bit_length / 8) bytes of the field's (or delimiter header's) own type, or the literal byte count of a float of that width "
+        "- never sizeof of the holder variable, which is wider than the wire form for non-standard widths and for size_t-held prefixes "
+        "(the up-front capacity check covers bit_length_set.max only)",
+    )
+    n = 0
+    macros = [m for m in cd.ts.macros(cd.tmpl("c", "ser")) if m.startswith("_serialize")]
+    for mname in macros:
+        for p in cd.paths("c", "ser", mname):
+            text = cd.text("c", p)
+            ph = dict(p.ph)
+            eqs = {int(x) for c, pol in p.conds if pol for x in re.findall(r"t\.bit_length == (\d+)", c)}
+            neqs = {int(x) for c, pol in p.conds if not pol for x in re.findall(r"t\.bit_length == (\d+)", c)}
+            notin = any("t.bit_length not in (32, 64" in c and pol for c, pol in p.conds)
+            if len(eqs) > 1 or eqs & neqs or (notin and eqs & {32, 64}):
+                continue      # independent {% if %} blocks combined into a width that cannot occur
+            for m in re.finditer(r"mem(move|cpy) ?\(&buffer\[([^\]]*)\], ?&?([^,]+), ?([^;]*)\);", text):
+                size = m.group(4).strip()
+                where = m.group(2)
+                key = f"{mname} [{' & '.join(('' if pol else 'not ') + c for c, pol in p.conds if 'bit_length' in c and 'saturated' not in c)[-60:]}] :: memmove(.., {re.sub(r'Pz\d+z', lambda x: '{' + str(ph.get(x.group(0), '?')) + '}', size)})"
+                lit = re.fullmatch(r"(\d+)U", size)
+                phm = re.fullmatch(r"(Pz\d+z)U", size)
+                ok = False
+                why = ""
+                if lit:
+                    # a literal byte count: the float branches - the path condition fixes the width
+                    w = next((int(x) for c, pol in p.conds if pol for x in re.findall(r"t\.bit_length == (\d+)", c)), None)
+                    ok = w is not None and int(lit.group(1)) * 8 == w
+                    why = "" if ok else f"{size} bytes on a path for {w}-bit values"
+                elif phm:
+                    k = str(ph.get(phm.group(1), ""))
+                    hdr = "delimiter_header_type" in where or "delimiter_header_type" in "".join(str(ph.get(x, "")) for x in re.findall(r"Pz\d+z", where))
+                    want = "(t.delimiter_header_type.bit_length | bits2bytes_ceil)" if hdr else "(t.bit_length | bits2bytes_ceil)"
+                    ok = k == want
+                    why = "" if ok else f"size is {k}, the written item's wire size is {want}"
+                else:
+                    why = f"size expression `{size}` (sizeof / arithmetic) is not the wire size: bytes beyond the field - and beyond the checked capacity at the end of the message - are overwritten"
+                n += 1
+                ctx.ob(R, cd.tmpl("c", "ser").rel, key, ok, why, None)
+    ctx.floor(R, n, 4)
+
+
 def run(ctx):
     ctx.explanation = (
         "C04 is decided for structural necessary conditions of memory safety and independence from prior state: the "
@@ -350,6 +396,7 @@ def run(ctx):
     ts = j2front.TemplateSet(ctx.root)
     cd = Codec(ts)
     rule_write_bound(ctx, cd)
+    rule_copy_size(ctx, cd)
     rule_index_bound(ctx, cd)
     rule_count_rejected_everywhere(ctx, cd)
     rule_union_index(ctx, cd)
